@@ -140,20 +140,20 @@ Proof.
     destruct (t_act x) as [sh aps com rate crate | sh aps com rate crate sp | aps rate | sh aps | post pre io];
       cbn [valid_action] in Hx.
     + vsplit Hx. apply Qcltb_true in Hx.
-      assert (Hb : 0 <= sh * adj_of (t_af x) adj) by (apply Qclt_le_weak; apply Qcmul_pos; assumption).
-      rewrite (gez_mul_ok sh _ (Qclt_le_weak _ _ Hx) (Qclt_le_weak _ _ Hsa)). cbn [bind].
+      assert (Hb : 0 <= sh / adj_of (t_af x) adj) by (apply Qclt_le_weak; apply Qcdiv_pos; assumption).
+      rewrite (gez_div_ok sh _ (Qclt_le_weak _ _ Hx) Hsa). cbn [bind].
       rewrite (gez_add_ok _ _ He Hb). cbn [bind].
       pose proof (old_nonneg dflt (t_af x) _ Hact Hd) as Hold.
       rewrite (gez_add_ok _ _ Hold Hb). cbn [bind]. rewrite (gez_add_ok _ _ Ha Hb). cbn [bind].
       apply IH; [exact Hadj|]. split; [|split]; cbn [sc_eop sc_acq sc_active].
-      * remember (sh * adj_of (t_af x) adj) as b. clear - He Hb. qc_lra.
-      * remember (sh * adj_of (t_af x) adj) as b. clear - Ha Hb. qc_lra.
-      * apply active_update; [exact Hact|]. remember (sh * adj_of (t_af x) adj) as b.
+      * remember (sh / adj_of (t_af x) adj) as b. clear - He Hb. qc_lra.
+      * remember (sh / adj_of (t_af x) adj) as b. clear - Ha Hb. qc_lra.
+      * apply active_update; [exact Hact|]. remember (sh / adj_of (t_af x) adj) as b.
         remember (match alookup (af_id (t_af x)) (sc_active s) with Some d => d | None => dflt (t_af x) end) as o.
         clear - Hold Hb. qc_lra.
     + vsplit Hx. apply Qcltb_true in Hx.
-      rewrite (gez_mul_ok sh _ (Qclt_le_weak _ _ Hx) (Qclt_le_weak _ _ Hsa)). cbn [bind a_sub exact].
-      destruct (Qcltb_spec (sc_eop s - sh * adj_of (t_af x) adj) 0) as [|Hn1];
+      rewrite (gez_div_ok sh _ (Qclt_le_weak _ _ Hx) Hsa). cbn [bind a_sub exact].
+      destruct (Qcltb_spec (sc_eop s - sh / adj_of (t_af x) adj) 0) as [|Hn1];
         [split; [apply nopanic_rej | intros s' E; discriminate E]|].
       match goal with |- context [Qcltb ?na 0] => destruct (Qcltb_spec na 0) as [|Hn2] end;
         [split; [apply nopanic_rej | intros s' E; discriminate E]|].
@@ -166,8 +166,8 @@ Proof.
     + vsplit Hx. apply Qcltb_true in Hx. apply Qcltb_true in V.
       unfold split_factor. rewrite (pos_div_ok _ _ Hx V). cbn [bind].
       assert (Hf : 0 < post / pre) by (apply Qcdiv_pos; assumption).
-      rewrite (pos_div_ok _ _ Hsa Hf). cbn [bind].
-      apply IH; [apply adj_pos_update; [exact Hadj | apply Qcdiv_pos; assumption] | repeat split; assumption].
+      rewrite (pos_mul_ok' _ _ Hsa Hf). cbn [bind].
+      apply IH; [apply adj_pos_update; [exact Hadj | apply Qcmul_pos; assumption] | repeat split; assumption].
 Qed.
 
 Lemma bwd_scan_np first dflt bef : (forall a, 0 <= dflt a) -> Forall vtx bef ->
